@@ -5,7 +5,6 @@ PROP = {
     "files": ["filtering/c15_model_test.go", "filtering/c15_parser_test.go", "filtering/c15_refresh_test.go",
               "filtering/c15_regress_test.go"],
     "level": "exploration",
-    "claimed": False,
     "technique": "property-based testing (rapid): reference model of the list normal form and of 'last successfully "
                  "stored list'; fixed-point (round-trip) oracle; stateful histories of refreshes against a scripted "
                  "list server with fault injection at the enumerated transfer points",
@@ -39,7 +38,8 @@ PROP = {
         ("TestVFC15ParserLong", (400, 2000)),
         ("TestVFC15Refresh", (300, 1500), {"steps": 8, "shards": (4, 16)}),
     ],
-    "plain": ["TestVFC15RegressOtherKindAllFailed", "TestVFC15RegressSameKindMixed"],
+    "plain": ["TestVFC15RegressOtherKindAllFailed", "TestVFC15RegressFirstRefreshOtherKindFailed",
+              "TestVFC15RegressSameKindMixed"],
     "shards": (2, 16),
     "workers": (4, 16),
     "env": {"GOMAXPROCS": "2"},
